@@ -72,6 +72,18 @@ def run(ctx):
                                    [{"t": "send", "c": "c1", "k": "auth", "u": "u1", "p": "p1", "a": False, "via": via}, {"t": "sleep", "n": 6000},
                                     {"t": "recv"}, {"t": "send", "c": "c2", "k": "list", "u": "", "p": "", "a": False}, {"t": "recv"},
                                     {"t": "send", "c": "c3", "k": "auth", "u": "u2", "p": "p2", "a": False, "via": via}, {"t": "recv"}, {"t": "free"}]})
+    # reloads on an agent without a hooks directory (the default): the new-store messages must keep being taken off their channel
+    scenarios.append({"name": "reloads-without-hooks-dir", "mode": "", "default": 2, "files": up, "passwords": af.PASSWORDS, "gated": False, "seed": 1,
+                      "novalidate": True,
+                      "steps": [{"t": "send", "c": "c1", "k": "auth", "u": "u1", "p": "p1", "a": False}, {"t": "hup", "n": 2}, {"t": "send", "c": "c2", "k": "list", "u": "", "p": "", "a": False},
+                                {"t": "hup", "n": 2}, {"t": "send", "c": "c3", "k": "list", "u": "", "p": "", "a": False}, {"t": "hup", "n": 2},
+                                {"t": "send", "c": "c4", "k": "auth", "u": "u2", "p": "p2", "a": False}, {"t": "free"}]})
+    # the upgrade queue (= the update queue in local mode) kept near its capacity by clients while logins of an upgradeable user
+    # keep asking for upgrades; every write fails with an I/O error, so the user stays upgradeable
+    scenarios.append({"name": "upgrade-queue-at-capacity", "mode": "local", "default": 2, "files": up, "passwords": af.PASSWORDS, "gated": False, "seed": 5,
+                      "novalidate": True,
+                      "steps": [{"t": "breaktmp"}, {"t": "load", "clients": 13, "calls": 12000 if not thorough else 60000, "quiet": True,
+                                                    "kinds": ["update", "update", "update", "auth"], "users": ["u1"], "pws": ["p1"]}, {"t": "fixtmp"}, {"t": "free"}]})
     scenarios += af.simulated_scenarios(ctx, 12 if not thorough else 100)
     # transient accept errors (EMFILE) must not stop the saslauthd frontend from answering
     scenarios.append({"name": "sasl-accept-emfile", "mode": "", "default": 2, "files": up, "passwords": af.PASSWORDS,
